@@ -72,7 +72,7 @@ PROPS = {
                       "Mux.Modify", "Mux.Add", "Mux.Delete", "Mux.DefaultRoute", "NewMux", "baseRoute.handler", "baseRoute.op",
                       "baseRoute.match", "deleteRoute.match", "addRoute.match", "modifyRoute.match", "simpleBindRoute.match",
                       "extendedRoute.match", "searchRoute.match", "newRequest", "WithBaseDN", "WithFilter", "WithScope",
-                      "getRouteOpts", "routeDefaults", "conn.serveRequests", "Request.NewResponse", "NewServer", "Server.Router"],
+                      "getRouteOpts", "routeDefaults", "conn.serveRequests", "Request.NewResponse", "NewServer", "Server.Router", "newConn"],
         "streams": [
             {"stream": "mux", "n_quick": 30000, "n_thorough": 1500000},
             {"stream": "c06", "n_quick": 12, "n_thorough": 300, "timeout_quick": 900, "timeout_thorough": 6000},
@@ -154,8 +154,8 @@ PROPS = {
     },
     "C07": {
         "lean": ["GldapModel.Props.C07"], "audit": "GldapModel/Audit/C07.lean",
-        "inventory": LIFECYCLE_FUNCS,
-        "streams": [{"stream": "c07", "n_quick": 16, "n_thorough": 320, "timeout_quick": 900, "timeout_thorough": 6000}],
+        "inventory": LIFECYCLE_FUNCS + ["Mux.serve", "ResponseWriter.Write"],
+        "streams": [{"stream": "c07", "n_quick": 17, "n_thorough": 340, "timeout_quick": 900, "timeout_thorough": 6000}],
         "trusted": RUNTIME_TRUST,
         "assumptions": ["partial: stack exhaustion in the third-party BER reader on deeply nested input is a fatal error no recover can catch; it is outside the model and recorded as a known finding"],
     },
